@@ -75,6 +75,7 @@ def plan(tier, seed):
     # (c) isobaric ideal gas
     for n, mixed, scale in [(1, False, True), (3, True, True), (8, False, False), (3, False, False)] + ([(8, True, True), (1, True, False)] if big else []):
         W.append({"kind": "isobaric", "name": f"isobaric-N{n}-{'mixed' if mixed else 'cell'}-{'scaled' if scale else 'unscaled'}", "n": n, "mixed": mixed, "scale": scale, "L": L["v"]})
+    W.append({"kind": "isobaric", "name": "isobaric-N3-left-handed-cell", "n": 3, "mixed": True, "scale": True, "lefthanded": True, "L": L["v"]})
     W.append({"kind": "isobaric", "name": "isobaric-N5-constructor-moves-molecular-labels", "n": 5, "mixed": True, "scale": True, "ctor": True, "L": L["v"]})
     # (d) grand canonical ideal gas
     for lam, mol, tri, mixed in [(0.5, False, False, False), (3.0, False, True, True), (8.0, False, False, False), (3.0, True, False, False), (0.5, True, True, True)] + ([(8.0, True, False, True), (3.0, False, False, False)] if big else []):
@@ -163,6 +164,9 @@ def chain_isobaric(w, seed, L):
     r = np.random.default_rng(seed % 2**32)
     edge = V0 ** (1 / 3) * float(np.exp(r.uniform(-0.2, 0.2)))
     atoms = Atoms("Ar" * n, positions=r.uniform(0, edge, (n, 3)), cell=[edge] * 3, pbc=True)
+    if w.get("lefthanded"):
+        # the same box with its lattice vectors listed as a left-handed set (negative determinant, same volume)
+        atoms.set_cell(np.array([[0.0, edge, 0.0], [edge, 0.0, 0.0], [0.0, 0.0, edge]]), scale_atoms=False)
     atoms.calc = IdealGas()
     if w.get("ctor"):
         # moves handed to the driver's constructor (default_displacement_move / default_cell_move), atoms grouped into
@@ -284,7 +288,23 @@ def measure(w, seed, L, tag):
     stats = {k: (float(np.mean(v)), float(np.std(v, ddof=1) / math.sqrt(K))) for k, v in means.items()}
     binstats = {b: (float(np.mean(v)), float(np.std(v, ddof=1) / math.sqrt(K))) for b, v in bins.items()}
     extras = {k: np.concatenate(v) for k, v in extras.items()}
+    LAST_CHAIN_MEANS.clear()
+    LAST_CHAIN_MEANS.update(means)
     return stats, binstats, extras
+
+
+LAST_CHAIN_MEANS: dict = {}
+
+
+def runaway(key, expected_value):
+    """A chain average that has run away (non-finite, or off by more than a factor of three) in EVERY chain, all on the
+    same side: the spread between such chains is as large as the deviation itself, so a z-score says nothing."""
+    v = np.asarray(LAST_CHAIN_MEANS.get(key, []), dtype=float)
+    if not len(v) or not expected_value > 0:
+        return 0
+    hi = (~np.isfinite(v)) | (v > 3 * expected_value)
+    lo = np.isfinite(v) & (v < expected_value / 3)
+    return 1 if hi.all() else (-1 if lo.all() else 0)
 
 
 def iid_tests(extras):
@@ -336,6 +356,8 @@ def run(spec):
             resolved = True
         if abs(z) > 5:
             flagged.append(("mean:" + k, z))
+        elif runaway(k, e):
+            flagged.append(("runaway:" + k, float(runaway(k, e))))
     if w["kind"] == "grand":
         for b, (m, se) in binstats.items():
             p = float(poisson.pmf(b, w["lam"]))
@@ -368,7 +390,12 @@ def run(spec):
         iid2 = iid_tests(extras2)
         for name, z in flagged:
             kind, key = name.split(":", 1)
-            if kind == "mean":
+            if kind == "runaway":
+                r2 = runaway(key, exp[key])  # LAST_CHAIN_MEANS now holds the re-measurement
+                again = r2 != 0 and r2 == int(z)
+                desc = f"{key}: expected {exp[key]:.5g}; every one of the {K} chains ran away ({'above 3x' if z > 0 else 'below 1/3 of'} the expected value), in the first measurement and in the re-measurement (chain means now {[float(f'{x:.3g}') for x in LAST_CHAIN_MEANS.get(key, [])[:4]]} ...)"
+                vkey = f"C01/{clause}/{key.replace('/', '-over-')}/runaway"
+            elif kind == "mean":
                 m2, se2 = stats2[key]
                 z2 = (m2 - exp[key]) / se2
                 again = abs(z2) > 5 and (z2 > 0) == (z > 0)
